@@ -2,6 +2,7 @@ package rules
 
 import (
 	"fmt"
+	"sort"
 	"go/types"
 	"strings"
 
@@ -173,9 +174,9 @@ func C15(c *Ctx) {
 				continue
 			}
 			args := call.Common().Args
-			newSt, isConst := core.ConstString(args[2])
-			if !isConst {
-				newSt = "?"
+			newSt := "?"
+			if set := statusConsts(c, args[2], 0); len(set) > 0 {
+				newSt = strings.Join(set, "|")
 			}
 			// every status change counts: a final state is neither re-entered nor left
 			nSites++
@@ -189,7 +190,7 @@ func C15(c *Ctx) {
 			}
 		}
 	}
-	r.Floor("R15.1", "status changes", nSites, 8)
+	r.Floor("R15.1", "status changes", nSites, 4)
 
 	// R15.2
 	vote := c.fn("R15.2", govPrefix+"Vote")
@@ -251,7 +252,7 @@ func C15(c *Ctx) {
 		})
 		n := c.behindEdges("R15.3", "countVote", cv, es, or(callTo("internal/repo.MakeStrategyDecision"), c.callReaching(chg)),
 			"!IsSpecial or IsSuperAdminVoted", "decision / status change")
-		r.Floor("R15.3", "decision and status-change sites in countVote", n, 3)
+		r.Floor("R15.3", "decision and status-change sites in countVote", n, 2)
 	}
 
 	// R15.4
@@ -286,15 +287,25 @@ func C15(c *Ctx) {
 					if !ok || core.StaticCallee(call) != chg {
 						return false
 					}
-					s, _ := core.ConstString(call.Common().Args[2])
-					return s == approved || s == rejected
+					// the new status is APPROVED / REJECTED: a constant, a phi of constants, or the result of a
+					// helper that returns only these (decidedStatus(isApprove))
+					set := statusConsts(c, call.Common().Args[2], 0)
+					if len(set) == 0 {
+						return false
+					}
+					for _, s := range set {
+						if s != approved && s != rejected {
+							return false
+						}
+					}
+					return true
 				}, func(in ssa.Instruction) bool {
 					call, ok := in.(ssa.CallInstruction)
 					return ok && core.StaticCallee(call) == handle
 				}, "concluding status change", "handleResult")
 			}
 		}
-		r.Floor("R15.4", "direct concluding changes in entries", nf, 3)
+		r.Floor("R15.4", "direct concluding changes in entries", nf, 1)
 	}
 
 	// R15.7 electorate changes reach every live proposal
@@ -476,4 +487,45 @@ func constOfPkg(c *Ctx, name string) string {
 		return ""
 	}
 	return strings.Trim(k.Val().ExactString(), "\"")
+}
+
+
+// statusConsts: the constants a status-typed value may be - a constant, a phi of constants, or the result of a
+// module function all of whose returns are such values. Empty when any origin is not a constant.
+func statusConsts(c *Ctx, v ssa.Value, depth int) []string {
+	set := map[string]bool{}
+	ok := true
+	for _, o := range core.RetOrigins(v) {
+		if s, isC := core.ConstString(o.V); isC {
+			set[s] = true
+			continue
+		}
+		if call, _ := core.CallOf(o.V); call != nil && depth < 2 {
+			if g := core.StaticCallee(call); g != nil && len(g.Blocks) > 0 && c.P.InModule(g) && g.Signature.Results().Len() == 1 {
+				sub := true
+				for _, ret := range core.Returns(g) {
+					rs := statusConsts(c, ret.Results[0], depth+1)
+					if len(rs) == 0 {
+						sub = false
+					}
+					for _, x := range rs {
+						set[x] = true
+					}
+				}
+				if sub {
+					continue
+				}
+			}
+		}
+		ok = false
+	}
+	if !ok {
+		return nil
+	}
+	var out []string
+	for k := range set {
+		out = append(out, k)
+	}
+	sort.Strings(out)
+	return out
 }
